@@ -514,3 +514,45 @@ def path_to(func, target, is_release, edge_filter=None):
                 continue
             dq.append((s, path + (s,)))
     return None
+
+
+def reaching_defs(func, name, node):
+    """assignments / initialisers of local `name` that can be the latest one when `node` is evaluated."""
+    defs = [d for d in func.walk() if (d.k == "BinaryOperator" and d.op == "=" and access_path(d.c[0]) == name) or
+            (d.k == "VarDecl" and d.name == name and d.c and d.c[0] is not None)]
+    ids = {d.id for d in defs}
+    tp = func.pos(node)
+    out = []
+    if tp is None:
+        return defs
+    for d in defs:
+        dp = func.pos(d)
+        if dp is None:
+            out.append(d)
+            continue
+        seen = set()
+        dq = deque([(dp[0], dp[1] + 1)])
+        hit = False
+        while dq and not hit:
+            b, i = dq.popleft()
+            if (b, i > 0) in seen:
+                continue
+            seen.add((b, i > 0))
+            blk = func.blocks[b]
+            killed = False
+            for j in range(i, len(blk.el)):
+                e = blk.el[j]
+                if b == tp[0] and j == tp[1]:
+                    hit = True
+                    break
+                if e.id in ids:
+                    killed = True
+                    break
+            if hit or killed:
+                continue
+            for s in blk.succs:
+                if s is not None:
+                    dq.append((s, 0))
+        if hit:
+            out.append(d)
+    return out
